@@ -215,6 +215,7 @@ func lemma_block_no_leak(i *ignore, meta *ast.Meta) {
 //@   callers [C12] lintBlockStatement lemma_block_no_leak
 
 //@ func (*Linter).lintStatement [C12]
+//@   dispatch GetMeta
 //@   requires l != nil && okIgnore(l.ignore) && s != nil
 //@   preserves F:ast.Meta. F:ast.Comment. E:*ast.Comment .Meta: E:linter.Rule
 //@   ensures [linter-keeps-its-ignore] l.ignore == old(l.ignore) && okIgnore(l.ignore)
@@ -230,6 +231,7 @@ func lemma_block_no_leak(i *ignore, meta *ast.Meta) {
 //@   ensures [ignore-sets-untouched] unchanged(l.ignore.ignoreNextLine.all) && unchanged(l.ignore.ignoreNextLine.rules) && unchanged(l.ignore.ignoreThisLine.all) && unchanged(l.ignore.ignoreThisLine.rules) && unchanged(l.ignore.ignoreRange.all) && unchanged(l.ignore.ignoreRange.rules)
 
 //@ func (*Linter).lintBlockStatement$1 [C12]
+//@   dispatch GetMeta
 //@   requires l != nil && okIgnore(l.ignore)
 //@   preserves F:ast.Meta. F:ast.Comment. E:*ast.Comment .Meta: E:linter.Rule
 //@   ensures [linter-keeps-its-ignore] l.ignore == old(l.ignore) && okIgnore(l.ignore)
